@@ -844,7 +844,7 @@ impl XmlAttributeValue {
                     Ok(Some(XmlAttributeValue::Char(char_ref)))
                 }
                 parser::Reference::Entity(v) => {
-                    check_entity_reference(v, context, true, &mut vec![])?;
+                    check_entity_reference(v, context, true, &mut vec![], &mut vec![])?;
                     let entity = context.entity(v)?;
                     let entity =
                         XmlUnexpandedEntityReference::node(entity, Some(parent_id), context);
@@ -2333,7 +2333,7 @@ impl XmlElement {
                             element.borrow_mut().push_child(reference);
                         }
                         parser::Reference::Entity(v) => {
-                            check_entity_reference(v, context, false, &mut vec![])?;
+                            check_entity_reference(v, context, false, &mut vec![], &mut vec![])?;
                             let entity = context.entity(v)?;
                             let entity =
                                 XmlUnexpandedEntityReference::node(entity, element_id, context);
@@ -4276,9 +4276,14 @@ fn check_entity_reference(
     context: &Context,
     in_attribute: bool,
     path: &mut Vec<String>,
+    checked: &mut Vec<String>,
 ) -> error::Result<()> {
     if path.iter().any(|v| v == name) {
         return Err(error::Error::InvalidData(format!("&{};", name)));
+    }
+
+    if checked.iter().any(|v| v == name) {
+        return Ok(());
     }
 
     let entity = context.entity(name)?;
@@ -4296,7 +4301,7 @@ fn check_entity_reference(
             XmlEntityValue::Character(v, 10) => Some(char_from_char10(v)?),
             XmlEntityValue::Character(v, _) => Some(char_from_char16(v)?),
             XmlEntityValue::Entity(v) => {
-                check_entity_reference(v, context, in_attribute, path)?;
+                check_entity_reference(v, context, in_attribute, path, checked)?;
                 None
             }
             XmlEntityValue::Text(v) if no_lt && v.contains('<') => Some('<'),
@@ -4307,6 +4312,7 @@ fn check_entity_reference(
         }
     }
     path.pop();
+    checked.push(name.to_string());
 
     Ok(())
 }
